@@ -193,7 +193,8 @@ func exec(name string, a []string) {
 			w.Fail("hash", "negative-or-not-crc32", strconv.Quote(string(l.Bytes(0))))
 		}
 	case "balance":
-		// driver-only directive (not a model op): after k*N accepts every loop must have received exactly k
+		// oracle directive (the model ignores it): after k*N accepts every loop must have received exactly k
+		w.Op(l)
 		k := l.Int(0)
 		for i, t := range st.tally {
 			if t != k {
@@ -273,8 +274,8 @@ func generate(seed uint64, tier string) {
 	if tier == "thorough" {
 		mult = 10
 	}
-	// 1. round robin: k*N accepts from a fresh balancer and from a random counter; every size
-	for _, n := range sizes(tier) {
+	// 1. round robin: k*N accepts from a fresh balancer and from a random counter; every size 1..256
+	for n := 1; n <= 256; n++ {
 		newCase("rr-balanced")
 		setup("rr", n)
 		k := 1 + r.Intn(3)
@@ -373,8 +374,6 @@ func generate(seed uint64, tier string) {
 				open = append(open[:j], open[j+1:]...)
 				continue
 			}
-			before := len(w.Stats.Samples)
-			_ = before
 			a := tr.X([]byte(randAddr(r)))
 			prevTally := append([]int(nil), st.tally...)
 			exec("accept", []string{a})
@@ -387,8 +386,8 @@ func generate(seed uint64, tier string) {
 		w.Hist("accept-close-" + pol)
 		w.End()
 	}
-	// 3. source address hash: every size x address shapes; same address again later
-	for _, n := range sizes(tier) {
+	// 3. source address hash: every size 1..256 x address shapes; same address again later
+	for n := 1; n <= 256; n++ {
 		newCase("hash-addresses")
 		setup("hash", n)
 		addrs := []string{"", "127.0.0.1:80", "[::1]:80", "[fe80::fc:ff:fe00:1%eth0]:8080", "[fe80::1%4]:1", "/var/tmp/s.sock", "@abstract", "\x00", "a"}
